@@ -6,6 +6,7 @@ import (
 	"errors"
 	"fmt"
 	"io"
+	"sync/atomic"
 	"time"
 
 	"nhooyr.io/websocket"
@@ -278,13 +279,13 @@ func c07RunConn(r *Run, who string, id int, o RawOpts, body func(rc *rawConn)) {
 	rc.Lib.In().RChunk = r.Tape.Weighted(4, 0, 1, 2, 3)
 	rc.Lib.Out().WChunk = r.Tape.Weighted(4, 0, 1, 2, 3)
 	peer := rc.Peer
-	done := false
+	var done atomic.Bool
 	r.S.Go(who+".peer", func() {
 		seen := 0
 		for {
 			f := peer.Next(&seen)
 			if f == nil {
-				done = true
+				done.Store(true)
 				return
 			}
 			if f.Opcode == wsref.OpClose {
@@ -294,7 +295,7 @@ func c07RunConn(r *Run, who string, id int, o RawOpts, body func(rc *rawConn)) {
 	})
 	body(rc)
 	rc.C.CloseNow()
-	r.S.ParkE("a."+who+".peerdone", func() bool { return done }, nil)
+	r.S.ParkE("a."+who+".peerdone", func() bool { return done.Load() }, nil)
 	dec := &wsref.Decoder{ExpectMasked: o.LibClient, Deflate: rc.Neg.Deflate, Takeover: rc.LibTake, KeepGoingAfterClose: true}
 	seq := 0
 	for _, f := range peer.Frames {
